@@ -237,6 +237,19 @@ def replay_chunk_order(chunks):
             got = ld.asnumpy()
             if got.shape != ref.shape or not np.allclose(got, ref, atol=1e-5):
                 bad[str(ch)] = [int(i) for i in np.flatnonzero(np.abs(got - ref).reshape(len(z), -1).max(axis=1) > 1e-5)] if got.shape == ref.shape else "shape"
+        # rotated molecules at fractional positions, cubic interpolation: the sampling windows (box + margin) end on, before and after chunk borders
+        from scipy.spatial.transform import Rotation
+
+        zs = np.arange(7.0, 30.0, 0.5)
+        pos2 = np.stack([zs, 11.3 + 0 * zs, 12.6 + 0 * zs], axis=1)
+        mole2 = Molecules(pos2, Rotation.from_rotvec(np.tile([0.3, -0.2, 0.5], (len(zs), 1))))
+        for order, box in ((3, (5, 5, 5)), (1, (4, 3, 5))):
+            for cs in (False, True):
+                ref2 = SubtomogramLoader(tomo, mole2, order=order, output_shape=box, corner_safe=cs).asnumpy()
+                for ch in [(12, 24, 24), (9, 8, 24), (6, 24, 12)]:
+                    got = SubtomogramLoader(da.from_array(tomo, chunks=ch), mole2, order=order, output_shape=box, corner_safe=cs).asnumpy()
+                    if got.shape != ref2.shape or not np.allclose(got, ref2, atol=1e-4):
+                        bad[f"rotated,order={order},box={box},corner_safe={cs},chunks={ch}"] = float(np.abs(got - ref2).max()) if got.shape == ref2.shape else "shape"
         return len(bad) > 0, {"chunkings-with-other-subtomograms-than-numpy-input": bad}
 
     return run
@@ -276,6 +289,10 @@ def sec_chunk_order(rec, chunks=((30, 30), (60,), (60,)), n=3, patches=None):
             rec.fact(f"{tag}/path{i}/runs", False, key="C10/chunk-order/raises", detail={"exc": repr(p.exc)[:200]}, reproduced=rp({})[0])
             continue
         h = hyps + [p.condition()]
+        # every slice acryo takes of the (chunked) tomogram stays inside the array it is taken from: numpy/dask would silently clamp it and planes would be lost
+        for (lab, cond, npc, ndef) in p.obligations:
+            if lab == "slice-in-range":
+                rec.query(f"{tag}/path{i}/slice-in-range", hyps + [p.cond_at(npc, ndef)], cond, key="C10/chunk-order/slice-clamped", replay=rp, twin=False)
         okn = len(p.result) == n
         rec.fact(f"{tag}/path{i}/n-tasks", okn, key="C10/chunk-order/task-count", detail={"n": len(p.result)}, reproduced=True if okn else rp({})[0])
         for k, r in enumerate(p.result[:n]):
